@@ -6,6 +6,7 @@ import errno
 import hashlib
 import io
 import pickle
+import pickletools
 import random
 import traceback
 import types
@@ -82,6 +83,13 @@ def pickle_ok(data):
     r = _pickle_cache.get(key)
     if r is None:
         try:
+            # structural pre-check in pure Python first: the C unpickler can spin forever on
+            # some torn inputs (seen with two different pickles interleaved in one inode)
+            last = None
+            for op, arg, pos in pickletools.genops(data):
+                last = op.name
+            if last != 'STOP':
+                raise ValueError('no STOP')
             pickle.loads(data)
             r = True
         except Exception:
@@ -828,7 +836,7 @@ class CacheSim(object):
                     self.world.spawn(self._environ(), self.make_body(ops), version=self.scanner_version)
                 self.world.record(-1, 'EPOCH', None, None, 'procs=%d' % len(ep['procs']))
                 try:
-                    self.world.run_until_quiescent(self.decider, step_cap=20000 if self.thorough else 8000)
+                    self.world.run_until_quiescent(self.decider, step_cap=200000 if self.thorough else 60000)
                 finally:
                     if not ep.get('probe'):
                         self.epoch_decisions.append([[d[0], d[1] - base] + d[2:] for d in self.world.decisions[dstart:]])
